@@ -70,7 +70,13 @@ struct World {
     cfg: Cfg,
     me: PeerId,
     dir: PathBuf,
-    store: NodeRecordStore,
+    /// bare mode: the store created with `with_config`; node mode: the store lives inside `node`
+    store: Option<NodeRecordStore>,
+    /// node mode (`--via-node`): a real SwarmDriver from `NetworkBuilder::build_node`; every step goes
+    /// through its real command handlers (PutLocalRecord, AddLocalRecordAsStored, ...)
+    node: Option<ant_networking::SwarmDriver>,
+    _net: Option<(ant_networking::Network, mpsc::Receiver<NetworkEvent>)>,
+    kp: Keypair,
     cmd_rx: mpsc::Receiver<LocalSwarmCmd>,
     cmd_tx: mpsc::Sender<LocalSwarmCmd>,
     ev_tx: mpsc::Sender<NetworkEvent>,
@@ -93,6 +99,19 @@ fn torn_len(full: usize, sel: usize) -> usize {
     if sel < cands.len() { cands[sel].min(full.saturating_sub(1)) } else { (sel - cands.len()) % full.max(1) }
 }
 
+static VIA_NODE: std::sync::atomic::AtomicBool = std::sync::atomic::AtomicBool::new(false);
+
+fn build_node(kp: &Keypair, dir: &Path) -> (ant_networking::Network, mpsc::Receiver<NetworkEvent>, ant_networking::SwarmDriver) {
+    let mut b = ant_networking::NetworkBuilder::new(kp.clone(), true);
+    b.listen_addr("127.0.0.1:0".parse().expect("addr"));
+    b.build_node(dir.to_path_buf()).expect("build_node")
+}
+
+fn net_err(e: &ant_networking::NetworkError) -> Value {
+    let s = format!("{e:?}");
+    if s.contains("MaxRecords") { json!("MaxRecords") } else { json!(format!("Err:{}", s.split(|c: char| !c.is_alphanumeric()).next().unwrap_or("Err"))) }
+}
+
 fn storage_cfg(dir: &Path, c: &Cfg, seed: [u8; 16]) -> ant_networking::verif_hooks::NodeRecordStoreConfig {
     ant_networking::verif_hooks::NodeRecordStoreConfig {
         storage_dir: dir.join("record_store"),
@@ -108,7 +127,8 @@ impl World {
     async fn new(rng: &mut StdRng, dir: PathBuf, cfg: Cfg, gates: &mut mpsc::UnboundedReceiver<GateEvent>) -> Self {
         let mut kseed = [0u8; 32];
         rng.fill(&mut kseed);
-        let me = PeerId::from(Keypair::ed25519_from_bytes(kseed).expect("seed").public());
+        let kp = Keypair::ed25519_from_bytes(kseed).expect("seed");
+        let me = PeerId::from(kp.public());
         let my = sha(&me.to_bytes());
         let mut all: Vec<(RecordKey, [u8; 32])> = (0..cfg.nk + cfg.filler)
             .map(|_| {
@@ -128,9 +148,15 @@ impl World {
         rng.fill(&mut seed);
         let (cmd_tx, cmd_rx) = mpsc::channel(10_000);
         let (ev_tx, ev_rx) = mpsc::channel(10_000);
-        let store = NodeRecordStore::with_config(me, storage_cfg(&dir, &cfg, seed), ev_tx.clone(), cmd_tx.clone());
+        let via_node = VIA_NODE.load(std::sync::atomic::Ordering::Relaxed);
+        let (store, node, net) = if via_node {
+            let (network, events, driver) = build_node(&kp, &dir);
+            (None, Some(driver), Some((network, events)))
+        } else {
+            (Some(NodeRecordStore::with_config(me, storage_cfg(&dir, &cfg, seed), ev_tx.clone(), cmd_tx.clone())), None, None)
+        };
         let mut w = World {
-            cfg, me, dir, store, cmd_rx, cmd_tx, ev_tx, _ev_rx: ev_rx, keys, dists, filler_keys,
+            cfg, me, dir, store, node, _net: net, kp, cmd_rx, cmd_tx, ev_tx, _ev_rx: ev_rx, keys, dists, filler_keys,
             values: HashMap::new(), parked: vec![], notes: vec![], pending_w: BTreeMap::new(), paid: 0, seed, cut_sel: 0,
         };
         w.settle_constructor_flush(gates).await;
@@ -149,7 +175,7 @@ impl World {
             let mut bytes = RecordHeader { kind: RecordKind::Chunk }.try_serialize().expect("header").to_vec();
             bytes.extend_from_slice(format!("filler {i}").as_bytes());
             let rec = Record { key: key.clone(), value: bytes, publisher: None, expires: None };
-            vh::store_put_verified(&mut self.store, rec, RecordType::Chunk).expect("filler put");
+            vh::store_put_verified(self.st(), rec, RecordType::Chunk).expect("filler put");
             if i % 64 == 63 || i + 1 == keys.len() {
                 // run the parked writes and acknowledge them
                 for _ in 0..3 { tokio::task::yield_now().await; }
@@ -163,14 +189,21 @@ impl World {
                     }
                     while let Ok(cmd) = self.cmd_rx.try_recv() {
                         if let LocalSwarmCmd::AddLocalRecordAsStored { key, record_type } = cmd {
-                            vh::store_mark_as_stored(&mut self.store, key, record_type);
+                            vh::store_mark_as_stored(self.st(), key, record_type);
                         }
                     }
                 }
             }
         }
-        let held = vh::store_record_addresses_ref(&self.store).len();
+        let held = vh::store_record_addresses_ref(self.st()).len();
         assert_eq!(held, self.cfg.filler, "filler records must all be acknowledged");
+    }
+
+    fn st(&mut self) -> &mut NodeRecordStore {
+        match self.node.as_mut() {
+            Some(d) => d.verif_node_store_mut().expect("node store"),
+            None => self.store.as_mut().expect("store"),
+        }
     }
 
     /// the constructor spawns one metrics flush: let it run at once (not part of the behaviours)
@@ -232,7 +265,12 @@ impl World {
                     GateEvent::Done { kind, tag } => done.push((kind.to_string(), tag)),
                 }
             }
-            while let Ok(cmd) = self.cmd_rx.try_recv() {
+            loop {
+                let cmd = match self.node.as_mut() {
+                    Some(d) => d.verif_try_recv_local_cmd(),
+                    None => self.cmd_rx.try_recv().ok(),
+                };
+                let Some(cmd) = cmd else { break };
                 match cmd {
                     LocalSwarmCmd::AddLocalRecordAsStored { key, record_type } => {
                         let k = self.key_id(&key);
@@ -244,6 +282,9 @@ impl World {
                     }
                     _ => {}
                 }
+            }
+            if let Some(d) = self.node.as_mut() {
+                while d.verif_try_recv_network_cmd().is_some() {}
             }
         }
         done
@@ -292,26 +333,39 @@ impl World {
     }
 
     fn observe(&mut self) -> Value {
-        let (idx, f_idx) = self.filler_in(vh::store_record_addresses_ref(&self.store).keys().cloned());
-        let (byd, f_byd) = self.filler_in(self.store.verif_records_by_distance().into_iter());
-        let (cache, _) = self.filler_in(self.store.verif_cache_keys().into_iter());
+        let idx_keys: Vec<RecordKey> = vh::store_record_addresses_ref(self.st()).keys().cloned().collect();
+        let byd_keys: Vec<RecordKey> = self.st().verif_records_by_distance();
+        let cache_keys: Vec<RecordKey> = self.st().verif_cache_keys();
+        let far_key = self.st().get_farthest();
+        // the read-back goes the way the node reads: through its GetLocalRecord command in node mode
+        let reads: Vec<Option<Vec<u8>>> = {
+            let keys = self.keys.clone();
+            if let Some(d) = self.node.as_mut() {
+                keys.iter().map(|k| {
+                    let (tx, mut rx) = tokio::sync::oneshot::channel();
+                    let _ = d.verif_handle_local_cmd(LocalSwarmCmd::GetLocalRecord { key: k.clone(), sender: tx });
+                    rx.try_recv().ok().flatten().map(|r| r.value)
+                }).collect()
+            } else {
+                let st = self.st();
+                keys.iter().map(|k| st.get(k).map(|r| r.value.clone())).collect()
+            }
+        };
+        let (idx, f_idx) = self.filler_in(idx_keys.into_iter());
+        let (byd, f_byd) = self.filler_in(byd_keys.into_iter());
+        let (cache, _) = self.filler_in(cache_keys.into_iter());
         // a filler record is the farthest one only while no model key is held (then the model's view is "none")
-        let far = self.store.get_farthest().map(|k| { let id = self.key_id(&k); if id != 0 { id } else if self.filler_keys.contains(&k) && idx.is_empty() { 0 } else { 998 } }).unwrap_or(0);
+        let far = far_key.map(|k| { let id = self.key_id(&k); if id != 0 { id } else if self.filler_keys.contains(&k) && idx.is_empty() { 0 } else { 998 } }).unwrap_or(0);
         let files: Vec<usize> = (1..=self.cfg.nk).filter(|&k| self.file_of(k).exists()).collect();
-        let rb: Vec<i64> = (1..=self.cfg.nk)
-            .map(|k| match self.store.get(&self.keys[k - 1]) {
-                Some(r) => self.value_id(k, &r.value),
-                None => 0,
-            })
-            .collect();
+        let rb: Vec<i64> = reads.iter().enumerate().map(|(i, r)| match r { Some(v) => self.value_id(i + 1, v), None => 0 }).collect();
         let tasks: Vec<Value> = self.parked.iter().map(|p| json!({"kind": p.id.kind, "k": p.id.k, "v": p.id.v})).collect();
         let notes: Vec<Value> = self.notes.iter().map(|n| json!({"kind": n.kind, "k": n.k, "v": n.v})).collect();
-        let range = match self.store.get_responsible_distance_range() {
+        let range = match self.st().get_responsible_distance_range() {
             None => 0,
             Some(r) => self.dists.iter().position(|d| U256::from_be_bytes(*d) == r).map(|i| i + 1).unwrap_or(99),
         };
         json!({"idx": idx, "byDist": byd, "far": far, "cache": cache, "files": files, "rb": rb, "tasks": tasks, "notes": notes,
-               "range": range, "pay": self.store.verif_received_payment_count(), "filler_idx": f_idx, "filler_byDist": f_byd})
+               "range": range, "pay": self.st().verif_received_payment_count(), "filler_idx": f_idx, "filler_byDist": f_byd})
     }
 }
 
@@ -335,12 +389,22 @@ async fn step(w: &mut World, gates: &mut mpsc::UnboundedReceiver<GateEvent>, t: 
             let ty = w.type_of(k, v);
             let before = w.parked.len();
             w.pending_w.entry(k).or_default().push(v);
-            let r = vtrace::guarded(|| vh::store_put_verified(&mut w.store, rec, ty));
-            res = match r {
-                Ok(Ok(())) => json!("Ok"),
-                Ok(Err(libp2p::kad::store::Error::MaxRecords)) => json!("MaxRecords"),
-                Ok(Err(e)) => json!(format!("Err:{e:?}")),
-                Err(_) => json!("Panic"),
+            res = if w.node.is_some() {
+                // the node's own command: kind -> RecordType mapping, fetcher notification, range hand-over
+                let _ = ty;
+                let d = w.node.as_mut().expect("node");
+                match vtrace::guarded(|| d.verif_handle_local_cmd(LocalSwarmCmd::PutLocalRecord { record: rec })) {
+                    Ok(Ok(())) => json!("Ok"),
+                    Ok(Err(e)) => net_err(&e),
+                    Err(_) => json!("Panic"),
+                }
+            } else {
+                match vtrace::guarded(|| vh::store_put_verified(w.st(), rec, ty)) {
+                    Ok(Ok(())) => json!("Ok"),
+                    Ok(Err(libp2p::kad::store::Error::MaxRecords)) => json!("MaxRecords"),
+                    Ok(Err(e)) => json!(format!("Err:{e:?}")),
+                    Err(_) => json!("Panic"),
+                }
             };
             w.pump(gates).await;
             // if no write was spawned for this put, forget the pending value id
@@ -352,7 +416,7 @@ async fn step(w: &mut World, gates: &mut mpsc::UnboundedReceiver<GateEvent>, t: 
         "Remove" => {
             let k = uz(&s["k"]);
             let key = w.keys[k - 1].clone();
-            if vtrace::guarded(|| w.store.remove(&key)).is_err() { res = json!("Panic"); }
+            if vtrace::guarded(|| w.st().remove(&key)).is_err() { res = json!("Panic"); }
             w.pump(gates).await;
         }
         "RunTask" => {
@@ -374,9 +438,17 @@ async fn step(w: &mut World, gates: &mut mpsc::UnboundedReceiver<GateEvent>, t: 
                 Some(p) => {
                     let note = w.notes.remove(p);
                     extra = json!({"n": {"kind": note.kind, "k": note.k, "v": note.v}, "ni": p + 1});
-                    match note.ty {
-                        Some(ty) => vh::store_mark_as_stored(&mut w.store, note.key, ty),
-                        None => w.store.remove(&note.key),
+                    if let Some(d) = w.node.as_mut() {
+                        let cmd = match note.ty {
+                            Some(ty) => LocalSwarmCmd::AddLocalRecordAsStored { key: note.key, record_type: ty },
+                            None => LocalSwarmCmd::RemoveFailedLocalRecord { key: note.key },
+                        };
+                        if vtrace::guarded(|| d.verif_handle_local_cmd(cmd)).is_err() { res = json!("Panic"); }
+                    } else {
+                        match note.ty {
+                            Some(ty) => vh::store_mark_as_stored(w.st(), note.key, ty),
+                            None => w.st().remove(&note.key),
+                        }
                     }
                     w.pump(gates).await;
                 }
@@ -385,25 +457,48 @@ async fn step(w: &mut World, gates: &mut mpsc::UnboundedReceiver<GateEvent>, t: 
         }
         "Get" => {
             let k = uz(&s["k"]);
-            out = match w.store.get(&w.keys[k - 1]) { Some(r) => json!(w.value_id(k, &r.value)), None => json!(0) };
+            let key = w.keys[k - 1].clone();
+            let got = if let Some(d) = w.node.as_mut() {
+                let (tx, mut rx) = tokio::sync::oneshot::channel();
+                let _ = d.verif_handle_local_cmd(LocalSwarmCmd::GetLocalRecord { key, sender: tx });
+                rx.try_recv().ok().flatten()
+            } else {
+                w.st().get(&key).map(|r| r.into_owned())
+            };
+            out = match got { Some(r) => json!(w.value_id(k, &r.value)), None => json!(0) };
         }
         "SetRange" => {
             let r = uz(&s["rg"]);
-            vh::store_set_responsible_distance_range(&mut w.store, U256::from_be_bytes(w.dists[r - 1]));
+            let range = U256::from_be_bytes(w.dists[r - 1]);
+            vh::store_set_responsible_distance_range(w.st(), range);
         }
         "Cleanup" => {
-            if vtrace::guarded(|| w.store.cleanup_irrelevant_records()).is_err() { res = json!("Panic"); }
+            if let Some(d) = w.node.as_mut() {
+                if vtrace::guarded(|| d.verif_handle_local_cmd(LocalSwarmCmd::TriggerIrrelevantRecordCleanup)).is_err() { res = json!("Panic"); }
+            } else if vtrace::guarded(|| w.st().cleanup_irrelevant_records()).is_err() { res = json!("Panic"); }
             w.pump(gates).await;
         }
         "PaymentReceived" => {
             w.paid += 1;
-            vh::store_payment_received(&mut w.store);
+            if let Some(d) = w.node.as_mut() {
+                let _ = d.verif_handle_local_cmd(LocalSwarmCmd::PaymentReceived);
+            } else {
+                vh::store_payment_received(w.st());
+            }
             w.pump(gates).await;
         }
         "Quote" => {
             let key = w.keys[0].clone();
-            let (qm, _) = vh::store_quoting_metrics(&w.store, &key, None);
-            out = json!({"close": qm.close_records_stored as i64 - w.cfg.filler as i64, "max": qm.max_records as i64 - w.cfg.filler as i64, "pay": qm.received_payment_count});
+            let qm = if let Some(d) = w.node.as_mut() {
+                let (tx, mut rx) = tokio::sync::oneshot::channel();
+                let _ = d.verif_handle_local_cmd(LocalSwarmCmd::GetLocalQuotingMetrics { key, sender: tx });
+                rx.try_recv().expect("quoting metrics answer").0
+            } else {
+                vh::store_quoting_metrics(w.st(), &key, None).0
+            };
+            // node mode: the store has the shipped capacity (16384), which the model calls MaxRecords
+            let max = if w.node.is_some() { if qm.max_records == 16 * 1024 { w.cfg.max_records as i64 } else { qm.max_records as i64 } } else { qm.max_records as i64 - w.cfg.filler as i64 };
+            out = json!({"close": qm.close_records_stored as i64 - w.cfg.filler as i64, "max": max, "pay": qm.received_payment_count});
         }
         "Restart" => {
             // crash now: parked bodies never run, undelivered notes are lost. If tk != 0 the write of tk that
@@ -432,10 +527,19 @@ async fn step(w: &mut World, gates: &mut mpsc::UnboundedReceiver<GateEvent>, t: 
                 while w.cmd_rx.try_recv().is_ok() {}
                 let (cmd_tx, cmd_rx) = mpsc::channel(10_000);
                 let (ev_tx, ev_rx) = mpsc::channel(10_000);
-                let store = NodeRecordStore::with_config(w.me, storage_cfg(&w.dir, &w.cfg, w.seed), ev_tx.clone(), cmd_tx.clone());
-                w.store = store;
+                if w.node.is_some() {
+                    // same identity, same root directory: the encryption seed is re-derived from the peer id
+                    w.node = None;
+                    w._net = None;
+                    let (network, events, driver) = build_node(&w.kp, &w.dir);
+                    w.node = Some(driver);
+                    w._net = Some((network, events));
+                } else {
+                    let store = NodeRecordStore::with_config(w.me, storage_cfg(&w.dir, &w.cfg, w.seed), ev_tx.clone(), cmd_tx.clone());
+                    w.store = Some(store);
+                }
                 w.cmd_rx = cmd_rx; w.cmd_tx = cmd_tx; w.ev_tx = ev_tx; w._ev_rx = ev_rx;
-                w.paid = w.store.verif_received_payment_count();
+                w.paid = w.st().verif_received_payment_count();
                 // bodies of the crashed process are parked for ever; their late gate events are ignored
                 w.settle_constructor_flush(gates).await;
                 extra = json!({"cut": cut_info});
@@ -514,6 +618,9 @@ async fn run() {
     let cache_size: usize = arg("--cache").and_then(|s| s.parse().ok()).unwrap_or(1);
     let cut_mod: usize = arg("--cuts").and_then(|s| s.parse().ok()).unwrap_or(10);
     let crash_pct: u32 = arg("--crash").and_then(|s| s.parse().ok()).unwrap_or(0);
+    if std::env::args().any(|a| a == "--via-node") {
+        VIA_NODE.store(true, std::sync::atomic::Ordering::Relaxed);
+    }
     let mut gates = vh::install_gate_controller();
     let mut t = Trace::create(&out);
     let mut run_no = 0u64;
